@@ -151,7 +151,8 @@ def inline_temps(func, keep=(), names_only=False):
                 blocked.add((al.asname or al.name).split('.')[0])
         elif isinstance(n, (ast.Subscript, ast.Attribute)) and \
                 isinstance(n.ctx, (ast.Store, ast.Del)):
-            heap_stores.append((_pos(n), ast.unparse(n)))
+            heap_stores.append((_pos(n), ast.unparse(n), ast.unparse(n.value)
+                                if isinstance(n, ast.Subscript) else None))
             b = _base_name(n)
             if b:
                 mutated.add(b)
@@ -225,10 +226,15 @@ def inline_temps(func, keep=(), names_only=False):
                     ok = False
                     break
             if ok:
-                for pos, tx in heap_stores:
-                    if end < pos < last and any(
-                            h == tx or h.startswith(tx) or tx.startswith(h + '[') or
-                            tx.startswith(h + '.') for h in heap):
+                for pos, tx, cont in heap_stores:
+                    if not (end < pos < last):
+                        continue
+                    if any(h == tx or h.startswith(tx) or tx.startswith(h + '[') or
+                           tx.startswith(h + '.') for h in heap):
+                        ok = False
+                        break
+                    # an element store `C[..] = v` may hit any element / slice read from C
+                    if cont is not None and (cont in heap or cont in fv):
                         ok = False
                         break
         if not ok:
